@@ -51,7 +51,7 @@ class RegisterFile:
         registers = [b for b in self.data.of_type(register_type)]
         if len(registers) == 0:
             return pd.DataFrame()
-        cols = registers[0].custom_properties
+        cols = register_type().custom_properties
         return pd.DataFrame(
             data={c: [getattr(r, c) for r in registers] for c in cols}
         )
